@@ -6,9 +6,7 @@ use routee_compass::app::compass::config::frontier_model::road_class::road_class
 use routee_compass::plugin::input::default::edge_rtree::edge_rtree_input_plugin::EdgeRtreeInputPlugin;
 use routee_compass::plugin::input::default::vertex_rtree::plugin::RTreePlugin;
 use routee_compass::plugin::input::input_plugin::InputPlugin;
-use routee_compass_core::model::unit::as_f64::AsF64;
 use routee_compass_core::model::unit::{Distance, DistanceUnit};
-use routee_compass_core::util::geo::haversine::haversine_distance_meters;
 use serde_json::{json, Value};
 
 fn lattice(i: usize) -> (f32, f32) {
@@ -44,7 +42,7 @@ fn tolerances() -> Vec<Option<(f64, DistanceUnit)>> {
 }
 
 fn hav(ax: f32, ay: f32, bx: f32, by: f32) -> f64 {
-    haversine_distance_meters(ax, ay, bx, by).map(|d| d.as_f64()).unwrap_or(f64::NAN)
+    crate::refmodel::units::great_circle_m(ax as f64, ay as f64, bx as f64, by as f64)
 }
 
 /// expected outcome for one point: (set of acceptable ids, must_error, on_boundary)
@@ -405,7 +403,7 @@ pub fn run(tier: Tier) -> i32 {
     finish(
         &info,
         st,
-        "state = one vertex set (subsets of a 3x3 lattice: sizes 1-4 and 7-9 quick, all 511 thorough) or edge set (every single edge and every pair of a 14-edge pool, sets of 7-14 records, all 14 with one bent edge; four geometry shapes: straight, slight bend, hairpin, detour; class table and one restricted edge); transition = one real plugin invocation for one query point of a 7x7 lattice reaching beyond the network (+3 far/odd points), with and without destination, under one tolerance (none, or 100/700/1300/5000 m expressed in m/km/mi/ft) and one road-class/vehicle filter; oracle = exhaustive scan under the plugin's own measure (squared f32 coordinate distance; to the linestring centroid for edges), tolerance by the code's haversine; non-trivial = more than one candidate",
+        "state = one vertex set (subsets of a 3x3 lattice: sizes 1-4 and 7-9 quick, all 511 thorough) or edge set (every single edge and every pair of a 14-edge pool, sets of 7-14 records, all 14 with one bent edge; four geometry shapes: straight, slight bend, hairpin, detour; class table and one restricted edge); transition = one real plugin invocation for one query point of a 7x7 lattice reaching beyond the network (+3 far/odd points), with and without destination, under one tolerance (none, or 100/700/1300/5000 m expressed in m/km/mi/ft) and one road-class/vehicle filter; oracle = exhaustive scan under the plugin's own measure (squared f32 coordinate distance; to the linestring centroid for edges), tolerance by the reference great-circle distance (double precision); non-trivial = more than one candidate",
         true,
         json!({"vertex_sets": masks.len(), "edge_sets": n_sets, "query_points": query_points().len(), "tolerances": tolerances().len(), "filters": 8}),
         vec![
